@@ -70,18 +70,20 @@ class Scen:
         nw = np_ if self.mode == "skel" else np_ - 1
         rel = "J=0" if self.J == 0 else ("J<W" if self.J < nw else ("J=W" if self.J == nw else "J>W"))
         return "%s %s %s R=%s%s" % ("ib=1" if self.mode == "skel" else "ib=0", "P=1" if np_ == 1 else ("P=2" if np_ == 2 else "P>2"), rel,
-                                    "/".join(map(str, sorted(set(self.rounds)))), " split" if self.G >= 1 else "")
+                                    "/".join(map(str, sorted(set(self.rounds)))), " split" if self.G >= 1 else "") + (" boss=last-rank" if self.mode == "nobossL" else "")
 
 
 def make_scenarios(chk, P, Jmax, nseeds):
     out = []
     k = 0
     for J in range(0, Jmax + 1):
-        for mode in ("skel", "noboss"):
+        for mode in ("skel", "noboss", "nobossL"):
             for si in range(nseeds):
+                if mode == "nobossL" and (P < 2 or si > 0):
+                    continue            # the boss on a rank other than 0 (black box only): one probe per (J, P)
                 if mode == "noboss" and P == 1 and (J > 1 or si > 0):
                     continue            # P=1 without include_boss throws "No workers": one or two probes suffice
-                R = (J + si + (mode == "noboss")) % 3 + 1
+                R = (J + si + (mode != "skel")) % 3 + 1
                 maxus = [0, 300, 1500][k % 3]
                 cx = [chk.rng.randint(1, 4) for _ in range(J)]
                 seed = chk.rng.randint(1, 10 ** 6)
@@ -330,7 +332,7 @@ def blackbox(scen, recs):
                         maps[wr] = tuple(tuple(int(x) for x in p.split(":")) for p in t[3].split(",")) if len(t) > 3 else ()
                     elif t[0] == "THROW" and int(t[2]) == k:
                         throws.append(" ".join(t[3:]))
-            if scen.mode == "noboss" and np_ == 1:
+            if scen.mode != "skel" and np_ == 1:
                 if not throws and not hung:
                     bad.append(("no-workers-not-rejected", {"round": k}))
                 continue
@@ -354,7 +356,7 @@ def blackbox(scen, recs):
                     bad.append(("map-domain", {"colour": colour, "round": k, "map": m}))
                 elif any(m[j] != w for j, w in runs if j in m):
                     bad.append(("map-names-wrong-rank", {"colour": colour, "round": k, "map": m, "runs": sorted(runs)}))
-                if scen.mode == "noboss" and any(w == 0 for _, w in runs):
+                if scen.mode != "skel" and any(w == (np_ - 1 if scen.mode == "nobossL" else 0) for _, w in runs):
                     bad.append(("root-ran-job-without-include_boss", {"colour": colour, "round": k}))
                 obs[(colour, k)] = (sorted(runs), sorted(m.items()))
     return bad, obs
@@ -388,6 +390,8 @@ def process(chk, drv, scens, P, outdir, tracedir, state):
         have = os.path.isdir(os.path.join(tracedir, s.id)) and os.listdir(os.path.join(tracedir, s.id))
         if scen_throws(s):
             pass
+        elif s.mode == "nobossL":
+            state["blackbox_only"] = state.get("blackbox_only", 0) + 1      # the trace replay numbers the master as rank 0
         elif not have:
             state["hook_absent"] += 1
         else:
@@ -449,7 +453,7 @@ def process(chk, drv, scens, P, outdir, tracedir, state):
 
 
 def scen_throws(s):
-    return s.mode == "noboss" and min(len(v) for v in s.groups().values()) == 1
+    return s.mode != "skel" and min(len(v) for v in s.groups().values()) == 1
 
 
 def run_batch(chk, h, drv, scens, P, state, watchdog, tag):
